@@ -190,9 +190,17 @@ def list_graph_cases(rng, tier):
     """reference graphs that run through list elements and nested objects, closed or completed by a later Merge"""
     copts = [opt("PathSep", "."), opt("VarExp")]
     for _ in range(60 if tier == "quick" else 600):
-        shape = rng.below(4)
+        shape = rng.below(6)
         a = rng.pick(["a", "bb", "val"])
-        if shape == 0:      # a cycle closed by the second merge, through a list element
+        if shape == 4:      # an element of a list refers to the object that holds the list: FlattenedKeys / diff must come back
+            frm = M([("o", M([("n", S(a)), ("list", A([M([("up", S("${o}"))]), S("e1")]))]))])
+            merges = [{"b": M([("unrelated", U(1))]), "opts": copts}]
+            reads = [("o.n", a), ("o.list.1", "e1"), ("o.list.0.up.n", a)]
+        elif shape == 5:    # ... two lists deep, closed by the merge
+            frm = M([("o", M([("n", S(a)), ("ll", A([A([S("x"), M([("up", S("${back}"))])])]))]))])
+            merges = [{"b": M([("back", S("${o}"))]), "opts": copts}]
+            reads = [("o.n", a), ("o.ll.0.0", "x")]
+        elif shape == 0:      # a cycle closed by the second merge, through a list element
             frm = M([("l", A([S("${v}"), S("k")])), ("v", S(a))])
             merges = [{"b": M([("v", S("${l.0}"))]), "opts": copts}]
             reads = [("l.0", "err"), ("v", "err"), ("l.1", "k")]
@@ -213,6 +221,8 @@ def list_graph_cases(rng, tier):
         rd = [{"r": "get", "type": "String", "name": nm, "idx": -1} for nm, _ in reads]
         ex = [({"anyerr": True} if want == "err" else {"ok": {"s": want}}) for _, want in reads]
         extra = [{"r": "count", "name": "l"}, {"r": "keys"}, {"r": "has", "name": reads[0][0], "idx": -1}, {"r": "typed", "name": reads[0][0], "ty": "string"}]
+        if shape >= 4:
+            extra[0] = {"r": "diffself"}
         yield {"k": "eval", "from": frm, "opts": copts, "merges": merges, "ropts": copts, "reads": rd + extra,
                "expect": ex + [None, None, None, ({"anyerr": True} if reads[0][1] == "err" else {"ok": {"s": reads[0][1]}})], "repeat": 2,
                "_tag": "graph/lists-after-merge", "_nt": True, "_sig": "listgraph|%d|%d" % (shape, len(merges))}
